@@ -11,24 +11,10 @@
                K  between parser calls:   over the high-water mark => reading is paused
                Sz rsize = total length of the buffered blocks
    together with high = 2*low, "the transport honours pause_reading", "compressed body". *)
-From AV Require Import Lib.Base Generated.DecodeGen Model.Decode.
+From AV Require Import Lib.Base Generated.DecodeGen Model.Decode Proofs.DecodeCommon.
 From Coq Require Import ZifyBool ZifyN.
 Ltac Zify.zify_post_hook ::= Z.to_euclidean_division_equations.
 Open Scope N_scope.
-
-Arguments cf {H} s. Arguments pr {H} s. Arguments pa {H} s. Arguments de {H} s. Arguments re {H} s. Arguments fed {H} s.
-Arguments comp {H} d. Arguments d_enc {H} d. Arguments d_h {H} d. Arguments d_size {H} d. Arguments d_started {H} d.
-Arguments core {H} s. Arguments pend {H} s.
-Arguments BNext {H} s chunk. Arguments BCont {H} s chunk. Arguments BRet {H} s r.
-
-Lemma lenN_concat_snoc (l : list bytes) (x : bytes) : lenN (concat (l ++ [x])) = lenN (concat l) + lenN x.
-Proof. rewrite concat_app, lenN_app. cbn [concat]. rewrite app_nil_r. reflexivity. Qed.
-
-Lemma lenN_firstn_skipn (n : nat) (l : bytes) : lenN (firstn n l) + lenN (skipn n l) = lenN l.
-Proof. rewrite <- lenN_app, firstn_skipn. reflexivity. Qed.
-
-Lemma take_drop_len (k : N) (l : bytes) : lenN (take k l) + lenN (drop k l) = lenN l.
-Proof. unfold take, drop. destruct (lenN l <=? k); [cbn; lia|apply lenN_firstn_skipn]. Qed.
 
 Section Bound.
   Variable H : Type.
@@ -104,13 +90,6 @@ Section Bound.
     - intros [= <- <-]; cbn. crush.
   Qed.
 
-  Lemma db_feed_err s chunk s' e : db_feed H hnew hstep havail s chunk = (s', FErr e) -> is_framing e = false.
-  Proof.
-    unfold db_feed. destruct (negb (comp (de (set_fed H s (fed s ++ chunk))))).
-    - destruct (rd_feed H _ chunk); intros [= <- <-]; reflexivity.
-    - match goal with |- context [hstep ?a ?b ?m] => destruct (hstep a b m) as [[[h2 out]|]|] end; try (intros [= <- <-]; reflexivity).
-      destruct (isnil out); [discriminate|]. destruct (rd_feed H _ out); [discriminate|]. intros [= <- <-]; reflexivity.
-  Qed.
 
   (* payload.feed_eof() *)
   Lemma db_feed_eof_spec s s' r :
@@ -176,7 +155,7 @@ Section Bound.
         * assert (He : E s). { unfold E, G in *. destruct Hg as [?|Hg]; [left; assumption|]. right. intro Ho. destruct (Hg Ho) as (X & _). congruence. }
           destruct (db_feed H hnew hstep havail s []) as [s1 [e|m]] eqn:Ed.
           -- intros [= <- <-]. destruct (db_feed_spec _ _ _ _ Hc Hb He Ed) as (F & B1 & G1).
-             split; [exact F|]. split; [auto|]. split; [apply G_K; auto|]. err_tac. eapply db_feed_err; eauto.
+             split; [exact F|]. split; [auto|]. split; [apply G_K; auto|]. err_tac. eapply (db_feed_err H hnew hstep havail); eauto.
           -- destruct (db_feed_spec _ _ _ _ Hc Hb He Ed) as (F & B1 & G1).
              destruct (upd_keep s1 (fun q => pa_more q m)) as (F2 & B2 & G2 & _ & _ & _ & _ & D2); [keeps_tac|].
              intros Hd. apply IH in Hd; auto.
@@ -206,7 +185,7 @@ Section Bound.
     assert (Hc0 : comp (de s0) = true) by (rewrite D0; exact Hc).
     destruct (db_feed H hnew hstep havail s0 (take req chunk)) as [s1 [e|m]] eqn:Ed;
       destruct (db_feed_spec _ _ _ _ Hc0 (B0 Hb) (E0 He) Ed) as (F1 & B1 & G1).
-    - intros [= <- <-]. split; [ft|]. split; [auto|]. split; [apply G_K; auto|]. err_tac. eapply db_feed_err; eauto.
+    - intros [= <- <-]. split; [ft|]. split; [auto|]. split; [apply G_K; auto|]. err_tac. eapply (db_feed_err H hnew hstep havail); eauto.
     - destruct (upd_keep s1 (fun q => pa_more q m)) as (F2 & B2 & G2 & _ & _ & _ & _ & D2); [keeps_tac|].
       set (s2 := upd_pa H s1 _) in *.
       assert (Hc2 : comp (de s2) = true). { rewrite D2. destruct F1 as (_ & _ & _ & X & _). auto. }
@@ -230,7 +209,7 @@ Section Bound.
     intros Hc Hb He. unfold eof_feed.
     destruct (db_feed H hnew hstep havail s c) as [s1 [e|m]] eqn:Ed;
       destruct (db_feed_spec _ _ _ _ Hc Hb He Ed) as (F1 & B1 & G1).
-    - intros [= <- <-]. split; [ft|]. split; [auto|]. split; [apply G_K; auto|]. err_tac. eapply db_feed_err; eauto.
+    - intros [= <- <-]. split; [ft|]. split; [auto|]. split; [apply G_K; auto|]. err_tac. eapply (db_feed_err H hnew hstep havail); eauto.
     - destruct (upd_keep s1 (fun q => pa_more q m)) as (F2 & B2 & G2 & _ & _ & _ & _ & D2); [keeps_tac|].
       set (s2 := upd_pa H s1 _) in *.
       assert (Hc2 : comp (de s2) = true). { rewrite D2. destruct F1 as (_ & _ & _ & X & _). auto. }
